@@ -3,6 +3,9 @@
 # builds cannot see), MANIFEST regeneration + schema validation, every quick check once on the current tree.
 set -e
 cd "$(dirname "$0")"
+# the generated Lean files must describe the clean /repo, whatever run touched them last
+test -z "$(git -C /repo status --porcelain)" || { echo "/repo is not clean"; exit 1; }
+/venv/bin/python tools_regen.py > /dev/null
 (cd lean && lake build D42 d42model 2>&1 | grep -i "error" && exit 1 || true)
 /venv/bin/python tools_manifest.py
 python3-vt - <<'PY'
@@ -23,3 +26,6 @@ print("evidence valid:", len(glob.glob('evidence/C*.json')))
 PY
 grep -L "^OK property" /tmp/.precommit_C*.log || true
 rm -f /tmp/.precommit_C*.log
+# and again after the checks (they regenerate too; this is what gets committed)
+/venv/bin/python tools_regen.py > /dev/null
+git status --short lean/D42/Gen | sed "s/^/generated file changed: /"
